@@ -49,6 +49,10 @@ pub fn verdict(p: Proto, m: &[u8], _ctx: &AppCtx) -> AppVerdict {
     let nblen = ((m[1] as usize) << 16) | ((m[2] as usize) << 8) | m[3] as usize;
     let body = &m[4..];
     let consistent_nb = nblen == body.len();
+    let magic: &[u8] = if p == Proto::Smb1 { b"\xffSMB" } else { b"\xfeSMB" };
+    if m[0] != 0 || m[1] != 0 || body.len() < 4 || &body[..4] != magic {
+        return AppVerdict::Unspecified("smb-message-without-the-identified-magic".into());
+    }
     match p {
         Proto::Smb1 => {
             if body.len() < 32 {
